@@ -451,6 +451,11 @@ func (p *Prog) evalI(e ast.Expr, env ienv) ival {
 			return meetIval(tr, iv)
 		}
 	}
+	if ix, ok := e.(*ast.IndexExpr); ok {
+		if iv, ok := p.tableLookup(ix, env); ok {
+			return meetIval(tr, iv)
+		}
+	}
 	return tr
 }
 
